@@ -1,13 +1,19 @@
 (* C01 (block phase): the block-phase model never panics and never runs out of fuel, and the
-   heap it leaves converts to a tree.  Hypotheses about the tables (which bytes are white space
-   and the like) may be added as Section Hypotheses when a proof needs them; each must then be
-   discharged for the tables regenerated from the code in the corollary at the end (by
-   vm_compute), so that the corollary has no hypothesis besides bytes_ok. *)
+   heap it leaves converts to a tree.  The single hypothesis about the tables, TblOK (the white
+   space table marks exactly the bytes 9, 10, 13 and 32), is a Section Hypothesis of
+   parse_blocks_total and is discharged for the tables regenerated from the code in the corollary
+   at the end (by computation), so that the corollary has no hypothesis besides bytes_ok.
+   The proof lives in the helper files ParseBlocksTotal*.v:
+     Reader (reader invariant RI, monotonicity), Defs (heap/context invariants, heap operations),
+     Spec (postconditions of Open/Continue/Close), St, Shape (LineInv), Lrd (link reference
+     definitions), Transform, Leaf, Leaf2, Cont*, Pair (per-parser lemmas), Close (closeBlocks),
+     Open (openBlocks), Each (the loop over the opened blocks), Drive (outer loops, to_tree). *)
 Require Import GM.model.Base GM.model.Util GM.model.UtilI GM.model.Reader GM.model.ReaderSpec GM.model.Blocks GM.model.ListItem
                GM.model.LeafBlocks GM.model.CodeBlock GM.model.LinkDest GM.model.Regex GM.model.HtmlWriter
                GM.model.Html GM.model.HtmlSpec GM.model.BlockParse GM.model.InlineParse GM.model.ParseI.
 Require Import GM.gen.Tables GM.gen.Regexes.
 Require Import GM.proofs.MiscProofs GM.proofs.ReaderProofs GM.proofs.BReaderProofs GM.proofs.BlockRangeProofs GM.proofs.ParseInv.
+Require Import GM.proofs.ParseBlocksTotalSpec GM.proofs.ParseBlocksTotalDrive.
 From Coq Require Import ZArith Lia.
 Open Scope Z_scope.
 
@@ -17,12 +23,39 @@ Variable norm : bytes -> bytes.
 Variable re_t1o re_t1c re_t2 re_t3 re_t4 re_t5 re_t6 re_t7 : re.
 Variable allowed_tags : list bytes.
 Notation PB := (parse_blocks space_table punct_table norm re_t1o re_t1c re_t2 re_t3 re_t4 re_t5 re_t6 re_t7 allowed_tags).
+(* the white space table marks exactly tab, newline, carriage return and blank *)
+Hypothesis tbl : TblOK space_table.
 
 Theorem parse_blocks_total : forall src, bytes_ok src ->
   exists s t, PB src = Ok s /\ to_tree (S (length (s_h s))) src (s_h s) 0%nat = Ok t.
-Proof. Admitted.
+Proof.
+  intros src _.
+  exact (parse_blocks_tree_ok space_table punct_table norm re_t1o re_t1c re_t2 re_t3 re_t4 re_t5 re_t6 re_t7 allowed_tags src tbl).
+Qed.
 
 End S.
 
+(* the generated white space table satisfies TblOK *)
+Lemma space_table_ok : TblOK space_table.
+Proof.
+  intros c. unfold is_space, tbl.
+  destruct (N.ltb_spec c 256) as [Hlt|Hge].
+  - assert (H : forallb (fun n => Bool.eqb (N.eqb (nth n space_table 0%N) 1)
+                                 ((N.of_nat n =? 9) || (N.of_nat n =? 10) || (N.of_nat n =? 13) || (N.of_nat n =? 32))%N)
+                        (seq 0 256) = true) by (vm_compute; reflexivity).
+    rewrite forallb_forall in H. specialize (H (N.to_nat c)).
+    rewrite N2Nat.id in H. apply Bool.eqb_prop. apply H. apply in_seq. lia.
+  - rewrite nth_overflow by (change (length space_table) with 256%nat; lia).
+    destruct (N.eqb_spec c 9) as [->|_]; [lia|]. destruct (N.eqb_spec c 10) as [->|_]; [lia|].
+    destruct (N.eqb_spec c 13) as [->|_]; [lia|]. destruct (N.eqb_spec c 32) as [->|_]; [lia|]. reflexivity.
+Qed.
+
 Corollary ParseBlocksTree_total : forall src, bytes_ok src -> exists r, ParseBlocksTree src = Ok r.
-Proof. Admitted.
+Proof.
+  intros src Hb. unfold ParseBlocksTree, ParseBlocks.
+  destruct (parse_blocks_total space_table punct_table ToLinkReference
+              re_htmlBlockType1Open re_htmlBlockType1Close re_htmlBlockType2Open re_htmlBlockType3Open
+              re_htmlBlockType4Open re_htmlBlockType5Open re_htmlBlockType6 re_htmlBlockType7 allowed_block_tags
+              space_table_ok src Hb) as [s [t [E1 E2]]].
+  rewrite E1. cbn [bind]. rewrite E2. cbn [bind]. eexists. reflexivity.
+Qed.
